@@ -12,6 +12,7 @@ import (
 	"fmt"
 	mrand "math/rand/v2"
 	"os"
+	"sort"
 	"strings"
 	"time"
 
@@ -187,7 +188,7 @@ func c10AddCase(out *emit.Out, scenario string, in c10Input) {
 	}
 	out.Add(emit.Case{Scenario: scenario + "/" + in.Stack, Trivial: len(in.Evs) < 3, Input: in, Direct: direct,
 		Observed: obs,
-		Coq: fmt.Sprintf("HistCase %d%%nat %d%%nat [%s]", in.CCap, in.SCap, strings.Join(coqEvs, ";\n   "))})
+		Coq:      fmt.Sprintf("HistCase %d%%nat %d%%nat [%s]", in.CCap, in.SCap, strings.Join(coqEvs, ";\n   "))})
 }
 
 func runC10(p params) error {
@@ -212,6 +213,38 @@ func runC10(p params) error {
 			c10AddCase(out, strings.SplitN(c.Scenario, "/", 2)[0], c.Input)
 		}
 		return out.Finish()
+	}
+	// directed histories (run first): every reason for which an offered session must not be resumed,
+	// each followed by a connection that shows the fallback and what is offered next
+	for _, st := range []string{"tlcp", "dtlcp"} {
+		conn := func(srv int, cs, ss []uint16, ident string, pol int, name string, insecure bool) c10Ev {
+			return c10Ev{K: "connect", Srv: srv, C: tk.EPConfig{Suites: cs, Ident: ident, ServerName: name, Insecure: insecure},
+				S: tk.EPConfig{Suites: ss, Ident: "srv", Auth: pol}}
+		}
+		cbc, gcm, both := []uint16{0xe013}, []uint16{0xe053}, []uint16{0xe053, 0xe013}
+		ok := func(srv int) c10Ev { return conn(srv, both, both, "cli", 0, "server.test", false) }
+		corpus := map[string][]c10Ev{
+			"server-drops-the-suite":  {conn(1, both, cbc, "cli", 0, "server.test", false), conn(1, both, cbc, "cli", 0, "server.test", false), conn(1, both, gcm, "cli", 0, "server.test", false), conn(1, both, gcm, "cli", 0, "server.test", false)},
+			"client-drops-the-suite":  {conn(1, cbc, both, "cli", 0, "server.test", false), conn(1, cbc, both, "cli", 0, "server.test", false), conn(1, gcm, both, "cli", 0, "server.test", false), conn(1, gcm, both, "cli", 0, "server.test", false)},
+			"declined-then-failed":    {ok(1), conn(1, both, both, "none", 4, "server.test", false), ok(1), ok(1)},
+			"declined-then-failed-2":  {conn(1, both, both, "none", 0, "server.test", false), conn(1, both, both, "none", 0, "server.test", false), conn(1, both, both, "none", 4, "server.test", false), conn(1, both, both, "none", 0, "server.test", false), conn(1, both, both, "none", 0, "server.test", false)},
+			"policy-tightened":        {conn(1, both, both, "none", 0, "server.test", false), conn(1, both, both, "none", 1, "server.test", false), conn(1, both, both, "none", 3, "server.test", false), conn(1, both, both, "cli", 4, "server.test", false), conn(1, both, both, "cli", 4, "server.test", false)},
+			"name-changed":            {ok(1), conn(1, both, both, "cli", 0, "wrong.test", false), ok(1), ok(1)},
+			"insecure-then-verifying": {conn(1, both, both, "cli", 0, "wrong.test", true), conn(1, both, both, "cli", 0, "wrong.test", true), conn(1, both, both, "cli", 0, "wrong.test", false), conn(1, both, both, "cli", 0, "server.test", false)},
+			"server-cache-lost":       {ok(1), {K: "loss", Srv: 1}, ok(1), ok(1)},
+			"forged-identifier":       {ok(1), {K: "forge", Srv: 1}, ok(1), ok(1)},
+			"three-servers-capacity":  {ok(1), ok(2), ok(3), ok(1), ok(2), ok(3), ok(3), ok(1)},
+		}
+		names := make([]string, 0, len(corpus))
+		for k := range corpus {
+			names = append(names, k)
+		}
+		sort.Strings(names)
+		for _, k := range names {
+			for _, caps := range [][2]int{{64, 64}, {1, 1}, {2, 2}} {
+				c10AddCase(out, "corpus-"+k, c10Input{Stack: st, CCap: caps[0], SCap: caps[1], Evs: corpus[k]})
+			}
+		}
 	}
 	r := mrand.New(mrand.NewPCG(p.seed, 0xC10))
 	n := 80
